@@ -202,7 +202,8 @@ TransferSt(C, st, s, a) ==
 (***************************************************************************)
 (* Operations thread a record r = [st, chk, tr, auto]:                     *)
 (*   st    the ledger state                                                *)
-(*   chk   accumulated C05 verdicts <<name, verdict, node, amount, q>>     *)
+(*   chk   accumulated C05 verdicts <<name, verdict, node, amount, q,     *)
+(*         value and position of the security when it was traded>>        *)
 (*   tr    the trades the log says this operation executed, in order, each *)
 (*         <<node, q>> - what the property leaves open (the quantity an    *)
 (*         allocation trades) is bound from here and checked with          *)
@@ -230,20 +231,21 @@ AllocNode(C, r, n, a, derived) ==
         LET q  == IF ~r.auto /\ HeadIs(r, n) THEN HeadQ(r, n) ELSE Zero
             r1 == IF ~r.auto /\ HeadIs(r, n) THEN Pop(r, n) ELSE r
         IN  [r1 EXCEPT !.st = TradeSec(C, r.st, n, q, NaN),
-                       !.chk = Append(@, <<"C05.sizing", "skip", n, a, q>>)] ELSE
+                       !.chk = Append(@, <<"C05.sizing", "skip", n, a, q, SecVal(C, r.st, n), r.st.pos[n]>>)] ELSE
      IF IsZero(a) THEN           \* a zero amount does nothing ...
         IF ~r.auto /\ derived /\ HeadIs(r, n)
         THEN \* ... but a computed amount that is zero only in exact arithmetic is
              \* not recognised as zero by the code (known finding K8)
              [Pop(r, n) EXCEPT !.st  = TradeSec(C, r.st, n, HeadQ(r, n), NaN),
-                               !.chk = Append(@, <<"C05.sizing", "K8", n, a, HeadQ(r, n)>>)]
+                               !.chk = Append(@, <<"C05.sizing", "K8", n, a, HeadQ(r, n), SecVal(C, r.st, n), r.st.pos[n]>>)]
         ELSE r
      ELSE
      LET q  == IF r.auto THEN MaxQ(C, r.st, n, a)
                ELSE IF HeadIs(r, n) THEN HeadQ(r, n) ELSE Zero
          r1 == IF ~r.auto /\ HeadIs(r, n) THEN Pop(r, n) ELSE r
      IN  [r1 EXCEPT !.st  = TradeSec(C, r.st, n, q, NaN),
-                    !.chk = Append(@, <<"C05.sizing", AllocSecChk(C, r.st, n, a, q, derived), n, a, q>>)]
+                    !.chk = Append(@, <<"C05.sizing", AllocSecChk(C, r.st, n, a, q, derived), n, a, q,
+                                          SecVal(C, r.st, n), r.st.pos[n]>>)]
   ELSE
      LET r1 == [r EXCEPT !.st = TransferSt(C, r.st, n, a)]
      IN  FoldKids(C, r1, C.kids[n], 1, a, 0)
@@ -254,7 +256,8 @@ ExplicitTrade(C, r, x, q, cp) ==
   LET ok == r.auto \/ (HeadIs(r, x) /\ HeadQ(r, x) = q)
       r1 == IF ~r.auto /\ HeadIs(r, x) THEN Pop(r, x) ELSE r
   IN  [r1 EXCEPT !.st  = TradeSec(C, r.st, x, q, cp),
-                 !.chk = Append(@, <<"C07.qty", IF Bad(q) THEN "skip" ELSE ChkBool(ok), x, q, q>>)]
+                 !.chk = Append(@, <<"C07.qty", IF Bad(q) THEN "skip" ELSE ChkBool(ok), x, q, q,
+                                          SecVal(C, r.st, x), r.st.pos[x]>>)]
 \* mode 0: allocate a * snapshot weight;  mode 1: transact a * snapshot weight
 FoldKids(C, r, ks, i, a, mode) ==
   IF i > Len(ks) THEN r
@@ -393,7 +396,7 @@ RebalanceAmount(C, st, s, w, c, base) ==
 Relabel(r0, r1, c) ==
   [r1 EXCEPT !.chk = [i \in 1..Len(@) |->
       IF i > Len(r0.chk) /\ @[i][1] = "C05.sizing" /\ @[i][3] = c
-      THEN <<"C06.rebalance", @[i][2], @[i][3], @[i][4], @[i][5]>> ELSE @[i]]]
+      THEN <<"C06.rebalance", @[i][2], @[i][3], @[i][4], @[i][5], @[i][6], @[i][7]>> ELSE @[i]]]
 RebalanceOp(C, r, s, w, c, base, upd) ==
   IF IsZero(w) THEN CloseOp(C, r, s, c, upd) ELSE
   LET amt == RebalanceAmount(C, r.st, s, w, c, base)
